@@ -74,6 +74,21 @@ func generatedFuncs(c *pipeline.Case) map[string]map[string]string {
 func checkC12(r *Run) {
 	type mk = func() *descgen.Entry
 	files := []mk{descgen.K7, descgen.K9, func() *descgen.Entry { return descgen.K10(false) }, func() *descgen.Entry { return noClash(descgen.K10(true)) }, descgen.K5, descgen.K15, descgen.K1}
+	// import_path_overrides in which the value of one entry is the key of another: the dependency package is
+	// named by its Go package name (first entry), a cast type by the full path the first entry yields (second
+	// entry); what Beta's cast resolves to must not depend on whether Alpha was written before (L1 only:
+	// nothing lives at these paths)
+	files = append(files, func() *descgen.Entry {
+		e := descgen.Rename(noClash(descgen.K10(true)), "k10chain")
+		_, dname := descgen.GoPackageOf(e.File.Dep)
+		mid := "example.com/api/" + dname
+		e.Cfg.ImportPathOverrides = map[string]string{dname: mid, mid: "example.com/fork/api/" + dname}
+		beta := e.File.Msg("Beta", false)
+		beta.Fields = append(beta.Fields, descgen.F("Kind", descgen.Cast(mid+".Kind")))
+		beta.Fields[len(beta.Fields)-1].Number = int32(len(beta.Fields))
+		e.Tags = append(e.Tags, "l1-only", "override-chain")
+		return e
+	})
 	nr := r.pick(3, 54)
 	for i := 0; i < nr; i++ {
 		i := i
@@ -105,6 +120,9 @@ func checkC12(r *Run) {
 				sel = append(sel, e.Cfg.Types...)
 			case 1:
 				sel = []string{names[rnd.Intn(len(names))]}
+				if contains(probe.Tags, "override-chain") {
+					sel = []string{"Beta"}
+				}
 			case 2:
 				sel = append(sel, names...)
 			default:
@@ -154,6 +172,9 @@ func checkC12(r *Run) {
 			break
 		}
 		probe := m()
+		if contains(probe.Tags, "l1-only") {
+			continue
+		}
 		for _, msg := range probe.File.Messages {
 			if len(compiled) >= r.pick(8, 120) {
 				break
@@ -634,7 +655,7 @@ func checkC16(r *Run) {
 			return &descgen.Entry{Name: "plain16", File: f, Cfg: c}
 		}
 		g := grp{name: "plain16"}
-		for k, what := range []string{"all-yaml", "all-cli/no-config-param", "all-cli/comment-only-file", "all-cli/blank-file", "all-yaml/anchors-and-aliases", "all-yaml/list-parameters-without-value"} {
+		for k, what := range []string{"all-yaml", "all-cli/no-config-param", "all-cli/comment-only-file", "all-cli/blank-file", "all-yaml/anchors-and-aliases", "all-yaml/list-parameters-without-value", "all-yaml/config-path-with-plus-signs"} {
 			e := mkPlain()
 			c := caseFrom(e)
 			c.NoWrite = true
@@ -655,6 +676,9 @@ func checkC16(r *Run) {
 			case 5:
 				// a list parameter that is present but empty leaves the YAML list in force
 				c.Delivery.Extra = []string{"exclude_fields=", "computed_fields=", "required_fields=", "sensitive=", "types="}
+			case 6:
+				// where the file lives is no part of the configuration: `+` separates list items, not paths
+				c.CfgDir = "cfg-c++/a+b"
 			}
 			c.Tags = append(c.Tags, what)
 			g.cases = append(g.cases, c)
@@ -881,7 +905,9 @@ func checkC18(r *Run) {
 	kinds := []string{"time-without-time_type", "duration-without-duration_type", "map-with-int32-key",
 		"time-without-time_type/duration_type-set", "duration-without-duration_type/time_type-set",
 		"map-with-sfixed32-key", "map-with-fixed64-key", "map-with-bool-key",
-		"repeated-time-without-time_type", "repeated-duration-without-duration_type", "map-of-time-without-time_type"}
+		"repeated-time-without-time_type", "repeated-duration-without-duration_type", "map-of-time-without-time_type",
+		// integers cast to a duration: to the standard type (while a custom duration type is configured as well) and to the custom type
+		"cast-std-duration-without-duration_type", "cast-custom-duration-without-duration_type"}
 	var all, compiled []*pipeline.Case
 	type fcase struct {
 		base, faulted, repaired *pipeline.Case
@@ -976,6 +1002,10 @@ func checkC18(r *Run) {
 						f = descgen.F(fname, descgen.Dur(), descgen.Rep(), descgen.NonNull())
 					case "map-of-time-without-time_type":
 						f = descgen.F(fname, descgen.TS(), descgen.MapOf())
+					case "cast-std-duration-without-duration_type":
+						f = descgen.F(fname, descgen.Sc(ir.Int64), descgen.Cast("time.Duration"))
+					case "cast-custom-duration-without-duration_type":
+						f = descgen.F(fname, descgen.Sc(ir.Int64), descgen.Cast("Duration"))
 					case "map-with-sfixed32-key":
 						f = descgen.F(fname, descgen.MapOf(), descgen.KeyT(ir.Sfixed32))
 					case "map-with-fixed64-key":
